@@ -98,6 +98,10 @@ def enc_color(c):
     return str(2000 + hash(c) % 1000)
 
 
+PARTIAL = {"minus-style": 88, "minus-emph-style": 89, "minus-non-emph-style": 90, "plus-style": 91, "plus-emph-style": 92,
+           "plus-non-emph-style": 93, "zero-style": 94}
+
+
 def main(tier, replay=None):
     chk = vlib.Check(PID, tier)
     ok, out = vlib.build_delta()
@@ -176,6 +180,17 @@ def main(tier, replay=None):
             tcases.append({"name": "src/f." + ext, "minus": [r.choice(pool) for _ in range(r.randint(1, 2))], "plus": [r.choice(pool) for _ in range(r.randint(1, 2))],
                            "ctx": [r.choice(pool)], "themes": th, "cls": cls, "styles": r.choice(["default", "nosyntax", "mixed"]),
                            "extra": r.choice([[], ["--side-by-side"], ["--line-numbers"], ["--keep-plus-minus-markers"]])})
+        # some of the seven hunk-line styles set to a style without `syntax` (each with its own background), the others
+        # left at their defaults; a paired removed / added line so that emph and non-emph sections exist
+        for i in range(n_bb // 2):
+            r = vlib.case_rng(chk.seed, PID, ("partial", i))
+            ext = r.choice(["rs", "py", "c", "sh", "json"])
+            line = r.choice(SNIPPETS[ext])
+            cls = r.choice(["dark", "light"])
+            chosen = r.sample(list(PARTIAL), r.randint(1, 3))
+            tcases.append({"name": "src/f." + ext, "minus": [line + " /* old tail */"], "plus": [line + " /* new tail */"], "ctx": [r.choice(SNIPPETS[ext])],
+                           "themes": r.sample(DARK if cls == "dark" else LIGHT, 2), "cls": cls, "styles": "partial", "chosen": chosen,
+                           "extra": r.choice([[], ["--side-by-side"], ["--side-by-side"], ["--line-numbers"]])})
 
     def work_t(c):
         inp = make_diff(c["name"], c["minus"], c["plus"], c["ctx"])
@@ -184,6 +199,10 @@ def main(tier, replay=None):
             base += NOSYN_STYLES
         elif c["styles"] == "mixed":
             base += ["--minus-style", "red", "--plus-style", "syntax 22", "--zero-style", "syntax"]
+        elif c["styles"] == "partial":
+            base += ["--max-line-distance", "1.0"]
+            for o in c["chosen"]:
+                base += ["--" + o, "normal %d" % PARTIAL[o]]
         return [run(base + ["--syntax-theme", t], inp) for t in c["themes"] + ["none"]]
     with ThreadPoolExecutor(max_workers=vlib.NCPU) as ex:
         tres = list(ex.map(work_t, tcases))
@@ -200,6 +219,16 @@ def main(tier, replay=None):
                     why.append(f"themes {c['themes'][0]!r} and {lab!r} differ in characters / backgrounds / attributes (row {k})")
             if c["styles"] == "nosyntax" and not (cs[0] == cs[1] == cs[2]):
                 why.append("no style asks for `syntax`, yet the foregrounds depend on the theme")
+            if c["styles"] == "partial":
+                # cells on the background of a chosen style: that style has no `syntax`, their foreground is the same
+                # under every theme and with highlighting off
+                bgs = {("p", PARTIAL[o]): o for o in c["chosen"]}
+                for j in (1, 2):
+                    for ra, rb in zip(cs[0], cs[j]):
+                        for (ch, fg, bg, at), (ch2, fg2, bg2, at2) in zip(ra, rb):
+                            if bg in bgs and bg == bg2 and fg != fg2 and not why:
+                                why.append(f"--{bgs[bg]} 'normal {bg[1]}' does not ask for `syntax`, yet the foreground of {ch!r} on that background "
+                                           f"is {fg} under {c['themes'][0]!r} and {fg2} under {(c['themes'] + ['none'])[j]!r}")
             if c["styles"] == "mixed":
                 # removed lines use `red` (no syntax): their cells must not depend on the theme
                 for x in cs[1:]:
